@@ -239,4 +239,171 @@ theorem readRequestMessage_unenveloped_det (w : World) (a b : St) (h : StEq a b)
       rw [da hle, db hle]
       split <;> rfl
 
+/-! ### what the message reader returns, as a function of the bytes -/
+
+/-- **A complete frame is returned exactly**: the body starts with a legal envelope `[f,a,b,c,d]` that
+    announces `payload.length` bytes (within the limit) followed by that payload: the reader returns
+    the payload and the compressed flag and leaves exactly the bytes after it - for every segmentation. -/
+theorem readRequestMessage_complete (w : World) (st : St) (ce : Enveloper) (hce : st.op.clientEnveloper = some ce)
+    (f a b c d : UInt8) (payload rest : Bytes) (env : Envelope)
+    (hdata : st.src.data = [f, a, b, c, d] ++ payload ++ rest)
+    (hdec : ce.decode f a b c d = some env) (hnt : env.trailer = false) (hlen : env.length = payload.length)
+    (hfit : ¬ env.length > st.op.conf.maxMsg) :
+    (readRequestMessage w st false).1 = .ok (payload, env.compressed) ∧
+    (readRequestMessage w st false).2.1.src.data = rest ∧
+    (readRequestMessage w st false).2.1.src.ending = st.src.ending ∧
+    (readRequestMessage w st false).2.1.op = st.op := by
+  unfold readRequestMessage
+  simp only [hce, Bool.false_eq_true, if_false]
+  have hl5 : 5 ≤ st.src.data.length := by rw [hdata]; simp
+  obtain ⟨s1, h1, h1d, h1e⟩ := readExactly_enough st.src.fuel st.src 5 [] (by have := Source.fuel_ge st.src; omega) hl5
+  rw [h1]
+  have htake : st.src.data.take 5 = [f, a, b, c, d] := by rw [hdata]; simp
+  simp only [List.nil_append, htake, hdec, hnt, Bool.false_eq_true, if_false, hfit]
+  have hs1 : s1.data = payload ++ rest := by rw [h1d, hdata]; simp
+  have hl : env.length ≤ s1.data.length := by rw [hs1, hlen]; simp
+  obtain ⟨s2, h2, h2d, h2e⟩ := readExactly_enough s1.fuel s1 env.length [] (by have := Source.fuel_ge s1; omega) hl
+  rw [h2]
+  simp only [List.nil_append]
+  refine ⟨by rw [hs1, hlen]; simp, by rw [h2d, hs1, hlen]; simp, by rw [h2e, h1e], trivial⟩
+
+/-- **A clean end is reported only at a message boundary** (nothing left, the body ended cleanly). -/
+theorem readRequestMessage_clean_end (w : World) (st : St) (ce : Enveloper) (hce : st.op.clientEnveloper = some ce)
+    (hd : st.src.data = []) (he : st.src.ending ≠ .unexpected) :
+    (readRequestMessage w st false).1 = .error .eof := by
+  unfold readRequestMessage
+  simp only [hce]
+  obtain ⟨s1, h1, _⟩ := readExactly_short st.src.fuel st.src 5 [] (by have := Source.fuel_ge st.src; omega) (by rw [hd]; simp)
+  rw [h1]
+  simp only [hd, List.append_nil]
+  unfold shortErr
+  cases hend : st.src.ending <;> simp_all
+
+/-- **A body that stops inside an envelope is an error**, never a message and never a clean end. -/
+theorem readRequestMessage_cut_prefix (w : World) (st : St) (ce : Enveloper) (hce : st.op.clientEnveloper = some ce)
+    (h0 : 0 < st.src.data.length) (h5 : st.src.data.length < 5) :
+    (readRequestMessage w st false).1 = .error .unexpectedEOF := by
+  unfold readRequestMessage
+  simp only [hce]
+  obtain ⟨s1, h1, _⟩ := readExactly_short st.src.fuel st.src 5 [] (by have := Source.fuel_ge st.src; omega) h5
+  rw [h1]
+  have hne : st.src.data ≠ [] := by intro h; rw [h] at h0; simp at h0
+  simp only [List.nil_append]
+  unfold shortErr
+  cases hend : st.src.ending <;> simp [hne]
+
+/-- **A body that stops inside an announced payload is an error**: the partial message is never returned. -/
+theorem readRequestMessage_cut_payload (w : World) (st : St) (ce : Enveloper) (hce : st.op.clientEnveloper = some ce)
+    (f a b c d : UInt8) (part : Bytes) (env : Envelope)
+    (hdata : st.src.data = [f, a, b, c, d] ++ part)
+    (hdec : ce.decode f a b c d = some env) (hnt : env.trailer = false) (hshort : part.length < env.length)
+    (hfit : ¬ env.length > st.op.conf.maxMsg) :
+    (readRequestMessage w st false).1 = .error .unexpectedEOF := by
+  unfold readRequestMessage
+  simp only [hce, Bool.false_eq_true, if_false]
+  have hl5 : 5 ≤ st.src.data.length := by rw [hdata]; simp
+  obtain ⟨s1, h1, h1d, h1e⟩ := readExactly_enough st.src.fuel st.src 5 [] (by have := Source.fuel_ge st.src; omega) hl5
+  rw [h1]
+  have htake : st.src.data.take 5 = [f, a, b, c, d] := by rw [hdata]; simp
+  simp only [List.nil_append, htake, hdec, hnt, Bool.false_eq_true, if_false, hfit]
+  have hs1 : s1.data = part := by rw [h1d, hdata]; simp
+  obtain ⟨s2, h2, _⟩ := readExactly_short s1.fuel s1 env.length [] (by have := Source.fuel_ge s1; omega) (by rw [hs1]; exact hshort)
+  rw [h2]
+  simp only [List.nil_append]
+  unfold shortErr
+  cases hend : s1.ending <;> cases hp : s1.data <;> simp
+
+/-- A frame as it appears on the wire: five envelope bytes and a payload. -/
+structure Frame where
+  f : UInt8
+  a : UInt8
+  b : UInt8
+  c : UInt8
+  d : UInt8
+  payload : Bytes
+
+def Frame.bytes (x : Frame) : Bytes := [x.f, x.a, x.b, x.c, x.d] ++ x.payload
+def framesBytes (fs : List Frame) : Bytes := (fs.map Frame.bytes).flatten
+
+/-- The envelope is legal for the client's protocol, is no end-of-stream frame, announces exactly the
+    payload's length, and that length is within the limit. -/
+def Frame.ok (ce : Enveloper) (maxMsg : Nat) (x : Frame) : Prop :=
+  ∃ env, ce.decode x.f x.a x.b x.c x.d = some env ∧ env.trailer = false ∧ env.length = x.payload.length ∧
+    ¬ env.length > maxMsg
+
+def Frame.msg (ce : Enveloper) (x : Frame) : Bytes × Bool :=
+  (x.payload, ((ce.decode x.f x.a x.b x.c x.d).map (·.compressed)).getD false)
+
+/-- **Every complete message is delivered, exactly, and the end is clean**: a body that is a sequence
+    of legal frames within the limit is cut into exactly those messages (payload and compressed flag,
+    in order), then a clean end - for every segmentation of the body. -/
+theorem readMessages_frames (w : World) (ce : Enveloper) : ∀ (fs : List Frame) (st : St) (n : Nat),
+    st.op.clientEnveloper = some ce → (∀ x ∈ fs, x.ok ce st.op.conf.maxMsg) →
+    st.src.data = framesBytes fs → st.src.ending ≠ .unexpected → fs.length < n →
+    readMessages w n st = (fs.map (Frame.msg ce), .eof) := by
+  intro fs
+  induction fs with
+  | nil =>
+    intro st n hce _ hd he hn
+    cases n with
+    | zero => omega
+    | succ k =>
+      unfold readMessages
+      rw [readRequestMessage_clean_end w st ce hce (by simpa [framesBytes] using hd) he]
+      rfl
+  | cons x xs ih =>
+    intro st n hce hok hd he hn
+    cases n with
+    | zero => omega
+    | succ k =>
+      obtain ⟨env, hdec, hnt, hlen, hfit⟩ := hok x (List.mem_cons_self)
+      have hdata : st.src.data = [x.f, x.a, x.b, x.c, x.d] ++ x.payload ++ framesBytes xs := by
+        rw [hd]; simp [framesBytes, Frame.bytes]
+      obtain ⟨r1, r2, r3, r4⟩ := readRequestMessage_complete w st ce hce x.f x.a x.b x.c x.d x.payload (framesBytes xs) env
+        hdata hdec hnt hlen hfit
+      unfold readMessages
+      rw [r1]
+      simp only
+      have := ih (readRequestMessage w st false).2.1 k (by rw [r4]; exact hce)
+        (fun y hy => by rw [r4]; exact hok y (List.mem_cons_of_mem _ hy)) r2 (by rw [r3]; exact he)
+        (by simp at hn; omega)
+      rw [this]
+      simp [Frame.msg, hdec]
+
+/-- **A body cut inside a message yields the complete messages before it and then an error**, never the
+    partial message and never a clean end. -/
+theorem readMessages_cut (w : World) (ce : Enveloper) : ∀ (fs : List Frame) (tail : Bytes) (st : St) (n : Nat),
+    st.op.clientEnveloper = some ce → (∀ x ∈ fs, x.ok ce st.op.conf.maxMsg) →
+    st.src.data = framesBytes fs ++ tail → fs.length < n →
+    (0 < tail.length ∧ tail.length < 5) →
+    readMessages w n st = (fs.map (Frame.msg ce), .unexpectedEOF) := by
+  intro fs
+  induction fs with
+  | nil =>
+    intro tail st n hce _ hd hn ht
+    cases n with
+    | zero => omega
+    | succ k =>
+      unfold readMessages
+      have hd' : st.src.data = tail := by simpa [framesBytes] using hd
+      rw [readRequestMessage_cut_prefix w st ce hce (by rw [hd']; exact ht.1) (by rw [hd']; exact ht.2)]
+      rfl
+  | cons x xs ih =>
+    intro tail st n hce hok hd hn ht
+    cases n with
+    | zero => omega
+    | succ k =>
+      obtain ⟨env, hdec, hnt, hlen, hfit⟩ := hok x (List.mem_cons_self)
+      have hdata : st.src.data = [x.f, x.a, x.b, x.c, x.d] ++ x.payload ++ (framesBytes xs ++ tail) := by
+        rw [hd]; simp [framesBytes, Frame.bytes]
+      obtain ⟨r1, r2, _, r4⟩ := readRequestMessage_complete w st ce hce x.f x.a x.b x.c x.d x.payload (framesBytes xs ++ tail) env
+        hdata hdec hnt hlen hfit
+      unfold readMessages
+      rw [r1]
+      simp only
+      have := ih tail (readRequestMessage w st false).2.1 k (by rw [r4]; exact hce)
+        (fun y hy => by rw [r4]; exact hok y (List.mem_cons_of_mem _ hy)) r2 (by simp at hn; omega) ht
+      rw [this]
+      simp [Frame.msg, hdec]
+
 end Vanguard
